@@ -293,9 +293,15 @@ func runC13(t testingT, p *Program) *Result {
 			if tr < lowest {
 				lowest = tr
 			}
-			frames, err := LiveWALFrames(e.DBPath+"-wal", e.Led.PageSize)
+			// committed frames: valid frames behind the last commit frame are the
+			// spilled pages of a rolled-back transaction, which the next writer
+			// overwrites (they do not accumulate).
+			valid, frames, err := WALFrameCounts(e.DBPath+"-wal", e.Led.PageSize)
 			if err != nil {
 				return nil
+			}
+			if valid > frames {
+				e.Res.Probes["dead_spill_frames_seen"]++
 			}
 			e.Res.Checks++
 			e.Res.Probes["wal_bound_checks"]++
